@@ -18,25 +18,46 @@ func Gosched() {
 }
 
 type (
-	Frame  = runtime.Frame
-	Frames = runtime.Frames
-	Func   = runtime.Func
-	Error  = runtime.Error
+	Frame    = runtime.Frame
+	Frames   = runtime.Frames
+	Func     = runtime.Func
+	Error    = runtime.Error
+	MemStats = runtime.MemStats
 )
 
 func Callers(skip int, pc []uintptr) int              { return runtime.Callers(skip+1, pc) }
 func CallersFrames(callers []uintptr) *runtime.Frames { return runtime.CallersFrames(callers) }
 func Caller(skip int) (uintptr, string, int, bool)    { return runtime.Caller(skip + 1) }
 func Stack(buf []byte, all bool) int                  { return runtime.Stack(buf, all) }
-func NumCPU() int                                     { return runtime.NumCPU() }
-func NumGoroutine() int                               { return runtime.NumGoroutine() }
-func GOMAXPROCS(n int) int                            { return runtime.GOMAXPROCS(n) }
-func GC()                                             { runtime.GC() }
-func KeepAlive(x any)                                 { runtime.KeepAlive(x) }
-func FuncForPC(pc uintptr) *runtime.Func              { return runtime.FuncForPC(pc) }
-func Goexit()                                         { runtime.Goexit() }
+
+// NumCPU and GOMAXPROCS answer with the simulated machine's processor count (core.SimCPUs, one
+// value per worker process, derived from the seed): code that sizes stripes, shards or tables
+// by it must not depend on the machine the check happens to run on.  Setting it is ignored.
+func NumCPU() int {
+	if core.SimCPUs > 0 {
+		return core.SimCPUs
+	}
+	return runtime.NumCPU()
+}
+func GOMAXPROCS(n int) int {
+	if core.SimCPUs > 0 {
+		return core.SimCPUs
+	}
+	return runtime.GOMAXPROCS(n)
+}
+func NumGoroutine() int                   { return runtime.NumGoroutine() }
+func GC()                                 { runtime.GC() }
+func KeepAlive(x any)                     { runtime.KeepAlive(x) }
+func FuncForPC(pc uintptr) *runtime.Func  { return runtime.FuncForPC(pc) }
+func Goexit()                             { runtime.Goexit() }
+func SetFinalizer(obj any, finalizer any) { runtime.SetFinalizer(obj, finalizer) }
+func ReadMemStats(m *runtime.MemStats)    { runtime.ReadMemStats(m) }
+func Version() string                     { return runtime.Version() }
+func LockOSThread()                       { runtime.LockOSThread() }
+func UnlockOSThread()                     { runtime.UnlockOSThread() }
 
 const (
-	GOOS   = runtime.GOOS
-	GOARCH = runtime.GOARCH
+	GOOS     = runtime.GOOS
+	GOARCH   = runtime.GOARCH
+	Compiler = runtime.Compiler
 )
